@@ -186,13 +186,13 @@ fn hostile_dec() -> BoxedStrategy<Decimal> {
 }
 
 fn hostile_money() -> BoxedStrategy<Money> {
-    (hostile_dec(), prop_oneof![5 => Just("GBP"), 2 => Just("USD"), 1 => Just("XAU"), 1 => Just("ZWL"), 1 => Just("JPY")]).prop_map(|(a, c)| Money { a, c: c.into() }).boxed()
+    (hostile_dec(), prop_oneof![16 => Just("GBP"), 3 => Just("USD"), 1 => Just("XAU"), 1 => Just("ZWL"), 1 => Just("JPY")]).prop_map(|(a, c)| Money { a, c: c.into() }).boxed()
 }
 
 fn hostile_date() -> BoxedStrategy<NaiveDate> {
     prop_oneof![
-        6 => (2015i32..2026, 1u32..13, 1u32..29).prop_filter_map("d", |(y, m, d)| NaiveDate::from_ymd_opt(y, m, d)),
-        2 => (1900i32..2101, 1u32..13, 1u32..29).prop_filter_map("d", |(y, m, d)| NaiveDate::from_ymd_opt(y, m, d)),
+        30 => (2015i32..2026, 1u32..13, 1u32..29).prop_filter_map("d", |(y, m, d)| NaiveDate::from_ymd_opt(y, m, d)),
+        4 => (1900i32..2101, 1u32..13, 1u32..29).prop_filter_map("d", |(y, m, d)| NaiveDate::from_ymd_opt(y, m, d)),
         1 => Just(NaiveDate::from_ymd_opt(1, 1, 1).expect("d")),
         1 => Just(NaiveDate::from_ymd_opt(9999, 12, 31).expect("d")),
         1 => Just(NaiveDate::from_ymd_opt(1900, 4, 5).expect("d")),
@@ -257,7 +257,8 @@ pub struct ValCase {
 
 fn signed_dec() -> BoxedStrategy<Decimal> {
     prop_oneof![
-        4 => (-1000i64..1000, 0u32..4).prop_map(|(m, s)| Decimal::new(m, s)),
+        12 => (1i64..1000, 0u32..4).prop_map(|(m, s)| Decimal::new(m, s)),
+        2 => (-1000i64..0, 0u32..4).prop_map(|(m, s)| Decimal::new(m, s)),
         2 => Just(Decimal::ZERO),
         1 => Just(Decimal::new(-1, 28)),
         1 => Just(Decimal::new(1, 28)),
